@@ -207,6 +207,32 @@ func c19Frame(c *core.Ctx, pkg *packages.Package) {
 			}
 			return true
 		})
+		// F87: a reader may hand over the last bytes together with io.EOF: the bytes are counted before EOF is looked at, and
+		// EOF is an error only while bytes are missing
+		advPos, eofPos := token.NoPos, token.NoPos
+		complete := false
+		for _, st := range loop.Body.List {
+			switch x := st.(type) {
+			case *ast.AssignStmt:
+				if x.Tok == token.ADD_ASSIGN && types.ExprString(x.Lhs[0]) == readN && advPos == token.NoPos {
+					advPos = x.Pos()
+				}
+			case *ast.IfStmt:
+				if be, ok := x.Cond.(*ast.BinaryExpr); ok && types.ExprString(be.Y) == "io.EOF" && eofPos == token.NoPos {
+					eofPos = x.Pos()
+					ast.Inspect(x, func(k ast.Node) bool {
+						if cb, ok := k.(*ast.BinaryExpr); ok && (cb.Op == token.EQL || cb.Op == token.NEQ || cb.Op == token.LSS) {
+							l, r := types.ExprString(cb.X), types.ExprString(cb.Y)
+							if (l == readN && r == sizeN) || (l == sizeN && r == readN) {
+								complete = true
+							}
+						}
+						return true
+					})
+				}
+			}
+		}
+		c.Check(advPos != token.NoPos && eofPos != token.NoPos && advPos < eofPos && complete, "C19.frame", "ReadMessage#eof-with-data", loop.Pos(), "the read loop looks at io.EOF before it has counted the bytes that came with it, or treats EOF as an error although the message is complete (bytes counted first: %v, EOF tested against completeness: %v): a reader may return the last bytes and io.EOF from one call (the io.Reader contract; bufio passes large reads through), a complete frame is then rejected as 'unexpected EOF'", advPos != token.NoPos && eofPos != token.NoPos && advPos < eofPos, complete)
 		okk := (cond == readN+" != "+sizeN || cond == readN+" < "+sizeN) && readArg == bN+"["+readN+":]" && (adv == "uint64("+nN+")") && eofErr
 		c.Check(okk, "C19.frame", "ReadMessage#loop", loop.Pos(), "the read loop must run while read != size, read into b[read:], add n to read and fail on EOF inside a message (cond %q, reads into %q, advances by %q, EOF is an error: %v): otherwise a frame that arrives in several reads is cut or overwritten from the start", cond, readArg, adv, eofErr)
 	}
@@ -382,7 +408,7 @@ func c19Roles(c *core.Ctx, pkg *packages.Package) {
 			}
 			got[k] = v
 		}
-		check("writeEndBatch", fn.Decl.Pos(), got, map[string]string{"Name": "$0", "Group": "string($2.ID)", "Tmax": "$1.UnixNano()", "Tags": "$2.Tags"}, "end-batch sent to the UDF")
+		check("writeEndBatch", fn.Decl.Pos(), got, map[string]string{"Name": "$0", "Group": "string($2.ID)", "Tmax": "$1.UnixNano()", "Tags": "$2.Tags", "ByName": "$2.Dimensions.ByName" /* F88: 'the same meta information' as the begin message */}, "end-batch sent to the UDF")
 		// call sites: (X.Name(), X.Time(), X.GroupInfo(), end)
 		n := 0
 		for _, f := range core.AllFuncs(pkg) {
